@@ -142,16 +142,29 @@ def r13e(ctx, run):
     m2, rows2 = tuple_arms(eq, "(self, other)")
     flag = eq.param_names()[2]
     seen = set()
+    settled = set()
     for fp, ep, arm in rows2:
         fh, eh = head(fp), head(ep)
         if fh in NOMINAL and eh == fh:
+            if fh in settled:
+                continue
+            fb, eb = bindings(fp), bindings(ep)
+            body = canon(synq.strip_block(arm["b"]))
+            guard = canon(arm.get("g")) if arm.get("g") is not None else ""
+            ua = [n for n, f in fb.items() if f == "uid"]
+            ub = [n for n, f in eb.items() if f == "uid"]
+            # form 1: an earlier arm `(K{uid:a}, K{uid:b}) if !flag && a != b => false`
+            if ua and ub and body == "false" and guard.replace(" ", "") in ("(!%s&&(%s!=%s))" % (flag, ua[0], ub[0]), "(!%s&&(%s!=%s))" % (flag, ub[0], ua[0])):
+                settled.add(fh)
+                seen.add((fh, arm["ln"]))
+                run.ok(eq.site(arm["ln"]), "(%s, %s): different uids are not equivalent unless %s" % (fh, eh, flag))
+                continue
             if (fh, arm["ln"]) in seen:
                 continue
             seen.add((fh, arm["ln"]))
-            fb, eb = bindings(fp), bindings(ep)
-            body = canon(synq.strip_block(arm["b"]))
-            has_uid = "uid" in fb.values() and "uid" in eb.values()
-            mentions_flag_or_uid = has_uid and any(n in body for n in fb if fb[n] == "uid")
+            settled.add(fh)
+            has_uid = bool(ua) and bool(ub)
+            mentions_flag_or_uid = has_uid and any(n in body for n in ua)
             # ok if: uids compared, or the structural comparison is only allowed under the flag
             guarded = body.startswith("(%s &&" % flag) or ("(%s ||" % flag) in body
             run.check(mentions_flag_or_uid or guarded, eq.site(arm["ln"]), "(%s, %s) arm keeps identity when %s is false" % (fh, eh, flag),
